@@ -83,6 +83,8 @@ def gen_case(rng, nw):
             ops.append({"op": "get", "id": sc.NS + i, "datasets": [d], "merge": True})
             ops.append({"op": "get", "id": sc.NS + i, "datasets": [], "merge": False})
     ops += fin_reads(nds, pool, rng)
+    if rng.chance(1, 4):
+        ops.append({"op": "rawkeys"})     # byte layout + iteration order of the real keys (Model/Keys.v)
     return {"datasets": sc.DS_NAMES[:nds], "ops": ops}
 
 
